@@ -144,6 +144,7 @@ def run_forest(case, r):
         da = blk.create_data_array("d", "t", data=np.array([1.0]))
         for nd in nodes:
             da.sources.append(src_h[nd.path])
+            src_h[nd.path].metadata = sec_h[nd.path]       # source a/b refers to section a/b as metadata
         ids_sec = {nd.path: sec_h[nd.path].id for nd in nodes}
         ids_src = {nd.path: src_h[nd.path].id for nd in nodes}
         H = height(nodes)
@@ -220,6 +221,16 @@ def run_forest(case, r):
             for p_, i in ids_src.items():
                 link_src[p_] = d_.sources[i]
             out.append(("link-list", {}, link_src))
+            # sections reached through a metadata link of a source with the same path
+            meta_sec = {}
+            for nd in nodes:
+                try:
+                    m_ = cont_src[nd.path].metadata
+                except Exception:
+                    m_ = None
+                if m_ is not None:
+                    meta_sec[nd.path] = m_
+            out.append(("metadata-link", meta_sec, {}))
             return out
 
         def check_all(stage, ff):
